@@ -17,7 +17,7 @@ from vlib.worker import Worker, guarded, short, use_repo
 use_repo()
 import beartype   # noqa: E402
 from beartype import BeartypeConf, BeartypeStrategy   # noqa: E402
-from beartype.roar import BeartypeCallHintParamViolation   # noqa: E402
+from beartype.roar import BeartypeCallHintParamViolation, BeartypeCallHintViolation   # noqa: E402
 
 RULE = ('signatures = every legal kind sequence over positional-only / positional-or-keyword / *args / keyword-only / '
         '**kwargs (exhaustive up to 4 parameters in quick, 6 in thorough; sampled beyond), any subset annotated with '
@@ -494,6 +494,107 @@ def run_case(W, stream, idx, seq, rng):
         sys.modules.pop(modname, None)
 
 
+def run_wraps_case(W, stream, idx, seq, rng):
+    """The decorated callable is a functools.wraps closure around the annotated original (the everyday decorator
+    idiom): pure pass-through (*args, **kwargs), or with parameters of its own.  Python binds the call to the CLOSURE's
+    signature: values bound to the closure's own (unannotated) parameters are nobody's business, and a call whose
+    forwarded values all satisfy the original's markers must behave exactly like the undecorated closure."""
+    import functools
+    sig, hostile = gen_sig(rng, seq)
+    if hostile:          # (a closure parameter named like an annotated parameter of the original would inherit its hint)
+        return
+    modname = f'_c04_{stream}_{idx}'
+    try:
+        ns, log, result, exc_obj, raises, desc = build(sig, rng, modname)
+        orig = ns['orig']
+        shape = rng.choice(('pure', 'own-kwonly', 'own-kwonly', 'own-kwonly-defaulted', 'own-leading-positional', 'own-both'))
+        clog = []
+        if shape == 'pure':
+            @functools.wraps(orig)
+            def closure(*args, **kwargs):
+                clog.append(('run', None, None))
+                return orig(*args, **kwargs)
+        elif shape in ('own-kwonly', 'own-kwonly-defaulted'):
+            @functools.wraps(orig)
+            def closure(*args, own_label='job', **kwargs):
+                clog.append(('run', None, own_label))
+                return orig(*args, **kwargs)
+        elif shape == 'own-leading-positional':
+            @functools.wraps(orig)
+            def closure(own_first, *args, **kwargs):
+                clog.append(('run', own_first, None))
+                return orig(*args, **kwargs)
+        else:
+            @functools.wraps(orig)
+            def closure(own_first, *args, own_label='job', **kwargs):
+                clog.append(('run', own_first, own_label))
+                return orig(*args, **kwargs)
+        cname, dec = rng.choice(CONFS)
+        try:
+            wrapped = dec(closure)
+        except Exception as e:   # noqa
+            W.violation('decorate-raised:wraps-closure:' + type(e).__name__,
+                        f'@beartype raised on a functools.wraps closure ({shape}) around {desc["signature"]}: {short(e, 300)}', stream, idx, desc)
+            return
+        W.count('wraps.closures')
+        W.count('wraps.shape.' + shape)
+        shapes = [(t, n, nm) for t, n, nm in directed_shapes(sig, rng)] + [random_shape(sig, rng) for _ in range(6)]
+        for tag, npos, names in shapes:
+            npos = max(0, npos)
+            args, kwargs = make_call(sig, rng, npos, list(names), 'ok')
+            try:
+                ns['twin_a'](*args, **kwargs)
+            except TypeError:
+                continue                      # only calls that bind to the original are judged here
+            # values for the closure's own parameters: anything, preferably what a neighbouring hint would reject
+            own_first = rng.choice((MARK[rng.randrange(NMARK)](), 'nightly', None, 0))
+            own_label = rng.choice((MARK[rng.randrange(NMARK)](), 'nightly', None, 0))
+            cargs, ckwargs = list(args), dict(kwargs)
+            if shape in ('own-leading-positional', 'own-both'):
+                cargs = [own_first] + cargs
+            if shape in ('own-kwonly', 'own-both'):
+                ckwargs['own_label'] = own_label
+            outs = []
+            for fn in (closure, wrapped):
+                del log[:], clog[:]
+                got = raised = None
+                try:
+                    got = fn(*cargs, **ckwargs)
+                except (KeyboardInterrupt, SystemExit):
+                    raise
+                except BaseException as e:   # noqa
+                    raised = e
+                outs.append((got, raised, list(log), list(clog)))
+            (g0, r0, l0, c0), (g1, r1, l1, c1) = outs
+            W.count('wraps.calls')
+            W.evaluate((desc['signature'], shape, cname, tag, [vname(v) for v in cargs], sorted((k, vname(v)) for k, v in ckwargs.items())))
+            src = f'closure({", ".join([vname(v) for v in cargs] + [f"{k}={vname(v)}" for k, v in ckwargs.items()])})'
+            wit = dict(desc, closure_shape=shape, call=src, conf=cname,
+                       undecorated=short(r0 if r0 is not None else g0, 120), decorated=short(r1 if r1 is not None else g1, 200))
+            if r0 is not None and r0 is not exc_obj:
+                W.count('wraps.reference_call_failed(info)')      # the closure itself does not take this call
+                continue
+            problem = None
+            if r1 is not None and r1 is not r0:
+                problem = ('wraps-closure:satisfying-call-rejected' if isinstance(r1, BeartypeCallHintViolation)
+                           else 'wraps-closure:raised-' + type(r1).__name__)
+            elif (r1 is None) != (r0 is None) or g1 is not g0:
+                problem = 'wraps-closure:result-not-identity'
+            elif len(c1) != 1 or len(l1) != 1:
+                problem = f'wraps-closure:ran-{len(c1)}x-original-{len(l1)}x'
+            elif c1[0][1] is not c0[0][1] or c1[0][2] is not c0[0][2]:
+                problem = 'wraps-closure:own-parameters-not-identical'
+            elif same_binding(l1[0], l0[0], sig):
+                problem = 'wraps-closure:forwarded-args-not-identical'
+            if problem:
+                W.violation(problem, f'{shape} closure around {desc["signature"]}: {src} (values forwarded to the original all satisfy '
+                                     f'its markers) -> undecorated {wit["undecorated"]}, decorated {wit["decorated"]}', stream, idx, wit)
+                return
+            W.count('wraps.calls_identical')
+    finally:
+        sys.modules.pop(modname, None)
+
+
 def main():
     W = Worker('C04', RULE, assumptions=[
         'the reference binding is Python\'s own binder (undecorated twins with the identical signature returning locals()); '
@@ -514,14 +615,18 @@ def main():
             seen.add(seq)
             if len(seen) == len(seqs):
                 W.count('workers_that_covered_every_kind_sequence')
-    for idx in W.cases('big', limit):
+    for idx in W.cases('big', limit, frac=0.85):
         rng = W.rng('big', idx)
         n = rng.randint(nmax + 1, nmax + 2) if quick else rng.randint(nmax + 1, NMARK - 1)
         cand = list(kind_sequences(n))
         run_case(W, 'big', idx, rng.choice(cand), rng)
         W.count('signatures.sampled_beyond_exhaustive')
+    for idx in W.cases('wraps', limit):
+        run_wraps_case(W, 'wraps', idx, seqs[idx % len(seqs)], W.rng('wraps', idx))
+    W.need('wraps.closures', 300)
+    W.need('wraps.calls_identical', 3000)
 
-    W.need('workers_that_covered_every_kind_sequence', 1)
+    W.need('|kind_sequences|', len(seqs))      # every legal kind sequence up to nmax parameters, over all workers
     W.need('signatures', 1500)
     W.need('signatures.sampled_beyond_exhaustive', 200)
     W.need('calls', 60000)
